@@ -49,7 +49,7 @@ theorem C14_atomic_ops :
 `t.listenersMu` section, no such section calls anything but map / slice builtins, and
 `RemoveListener` takes no other lock.  A listener whose `SendMessage` takes a lock that is also
 held while it is being removed (session mutex: `LeaveRoom` → `RemoveSession` → `RemoveListener`)
-can therefore not close a cycle through `t.mu` (the deadlock of the pinned tree, fixed in d70134f). -/
+can therefore not close a cycle through `t.mu` (the deadlock of the pinned tree, fixed in 001c654). -/
 theorem C14_listener_lock_is_leaf :
     listenerSetUsers = ["AddListener", "RemoveListener", "getListeners"] ∧
     listenerSetUnguarded = [] ∧ listenersMuCallsOut = [] ∧
